@@ -2,7 +2,7 @@
     Property theorems only; each is closed by [exact] of a lemma proved in Store/CrashProofs.v.
 
     [to] / [tq] are the sizes of the complete ODS / Q4 files of the block (the ODS file starts with a 65-byte header).
-    The model is the repaired code (branch fix-c08-2: a Q4 file that does not hold the whole quadrant is not used):
+    The model is the repaired code (fix commit 209657c: a Q4 file that does not hold the whole quadrant is not used):
     [lookup to tq true ...].  Process-crash semantics: effects are applied in order, one at a time. *)
 From Coq Require Import List NArith.
 From CN Require Import Base.Lts Store.Crash Store.CrashProofs.
